@@ -37,8 +37,10 @@ func handleRequestID(r *http.Request, w http.ResponseWriter, cfg config.LoggingC
 		return ""
 	}
 
-	requestID := strings.TrimSpace(r.Header.Get(header))
-	if requestID == "" {
+	// A supplied ID travels on as it arrived: trimming it here would hand the
+	// client a different value than the backend sees
+	requestID := r.Header.Get(header)
+	if strings.TrimSpace(requestID) == "" {
 		requestID = generateIdentifier("req")
 		r.Header.Set(header, requestID)
 	}
@@ -51,8 +53,8 @@ func handleTraceID(r *http.Request, w http.ResponseWriter, cfg config.LoggingCon
 		return ""
 	}
 
-	traceID := strings.TrimSpace(r.Header.Get(header))
-	if traceID == "" {
+	traceID := r.Header.Get(header)
+	if strings.TrimSpace(traceID) == "" {
 		traceID = generateIdentifier("trace")
 		r.Header.Set(header, traceID)
 	}
